@@ -1,6 +1,7 @@
 package pebbles
 
 import (
+	"bytes"
 	"context"
 	"encoding/json"
 	"log"
@@ -32,6 +33,18 @@ func (sd subscriptionDict) CleanAll() {
 	}
 }
 
+// writeServerText sends a text message as a single write. The heartbeat and every running
+// subscription write to the same connection concurrently; a frame written in pieces (header,
+// then payload) can get pieces of another frame in between, a single Write can not.
+func writeServerText(conn net.Conn, payload []byte) error {
+	var frame bytes.Buffer
+	if err := wsutil.WriteServerText(&frame, payload); err != nil {
+		return err
+	}
+	_, err := conn.Write(frame.Bytes())
+	return err
+}
+
 func sendHeartbeat(ctx context.Context, conn net.Conn) error {
 	simhook.Enter("sub.hb")
 	defer simhook.Exit()
@@ -45,7 +58,7 @@ func sendHeartbeat(ctx context.Context, conn net.Conn) error {
 	for {
 		select {
 		case <-timeTicker.C:
-			if err := wsutil.WriteServerText(conn, bMsg); err != nil {
+			if err := writeServerText(conn, bMsg); err != nil {
 				return err
 			}
 		case <-ctx.Done():
@@ -78,10 +91,11 @@ func (g *Gateway) subscriptionHandler(w http.ResponseWriter, r *http.Request) {
 		// gracefully close connection
 		body := ws.NewCloseFrameBody(ws.StatusNormalClosure, "")
 		frame := ws.NewCloseFrame(body)
-		if err := ws.WriteHeader(conn, frame.Header); err != nil {
+		var closeFrame bytes.Buffer
+		if err := ws.WriteFrame(&closeFrame, frame); err != nil {
 			return
 		}
-		if _, err := conn.Write(body); err != nil {
+		if _, err := conn.Write(closeFrame.Bytes()); err != nil {
 			return
 		}
 
@@ -113,7 +127,7 @@ func (g *Gateway) subscriptionHandler(w http.ResponseWriter, r *http.Request) {
 			if err != nil {
 				return
 			}
-			if err := wsutil.WriteServerText(conn, bresp); err != nil {
+			if err := writeServerText(conn, bresp); err != nil {
 				return
 			}
 			// start sending heartbeat
